@@ -90,3 +90,10 @@ pub fn t_as_mut(mut h: H) -> Option<u128> { if let Some(x) = h.slot.as_mut() { *
 
 // 18. mem::replace / swap
 pub fn t_mem(mut s: S) -> (u128, u128, u128) { let old = std::mem::replace(&mut s.a, 9); std::mem::swap(&mut s.a, &mut s.b); (old, s.a, s.b) }
+
+// 19. hand-written PartialEq is not structural: it must be inlined, also through the default `ne`
+pub enum K { P, Q, R }
+impl PartialEq for K {
+    fn eq(&self, other: &Self) -> bool { matches!((self, other), (K::P, K::P) | (K::Q, K::Q) | (K::R, K::R) | (K::P, K::Q)) }
+}
+pub fn t_handwritten_eq() -> (bool, bool, bool) { (K::P == K::Q, K::Q == K::P, K::P != K::Q) }
